@@ -54,6 +54,13 @@ Definition pairs_of (d : funcdef) : list value :=
   map pair_value (all_args (fd_args d))
   ++ match fd_returns d with Some r => [VTuple [VStr return_key; VExprV (fst (unstring_annotation r))]] | None => [] end.
 
+Ltac opts := repeat match goal with
+   | |- context [let (_, _) := ?r in _] => is_var r; destruct r
+   end; repeat match goal with
+   | |- context [dict_get ?k ?d] => destruct (dict_get k d)
+   | |- context [match ?o with Some _ => _ | None => _ end] => is_var o; destruct o
+   end.
+Ltac fin := evfull; cbn [fst snd]; opts; evfull; reflexivity.
 Ltac pointwise := let x := fresh "x" in intros x; destruct x as [? [?|]]; evfull; reflexivity.
 Ltac segs :=
   repeat (progress (repeat rewrite <- app_assoc; cbn [app]));
@@ -61,15 +68,9 @@ Ltac segs :=
     [ reflexivity
     | apply seg_flat_map; [pointwise|]
     | apply seg_flat_map_last; pointwise
-    | apply seg_one; [evfull; repeat match goal with
-                                      | |- context [match ?o with Some _ => _ | None => _ end] => destruct o
-                                      | |- context [let (_, _) := ?r in _] => destruct r
-                                      end; evfull; reflexivity|]
-    | apply f_equal2; [evfull; repeat match goal with
-                                      | |- context [match ?o with Some _ => _ | None => _ end] => destruct o
-                                      | |- context [let (_, _) := ?r in _] => destruct r
-                                      end; evfull; reflexivity|] ].
-
+    | apply seg_one; [fin|]
+    | apply f_equal2; [fin|]
+    | fin ].
 
 (* ---- _annotations_from_function ---------------------------------------------------------------------- *)
 Lemma code_annotations_pairs d :
@@ -216,12 +217,6 @@ Ltac idx := match goal with |- context [index_value (map ?g ?l) ?z] =>
    destruct (index_value_map g l z) as (x & Ex & Ei); [lia|]; rewrite Ei end.
 Ltac al_some := match goal with Ex : nth_error ?df _ = Some ?x |- _ =>
    rewrite (aligned_nth_some _ df _ x) by (first [lia | (rewrite <- Ex; f_equal; lia)]) end.
-Ltac opts := repeat match goal with
-   | |- context [let (_, _) := ?r in _] => is_var r; destruct r
-   end; repeat match goal with
-   | |- context [dict_get ?k ?d] => destruct (dict_get k d)
-   | |- context [match ?o with Some _ => _ | None => _ end] => is_var o; destruct o
-   end.
 Ltac pw_pos :=
   let i := fresh "i" in let nm := fresh "nm" in let an := fresh "an" in let Hin := fresh "Hin" in
   intros [i [nm an]] Hin; apply zenum_In in Hin; evfull; cbn [fst snd]; lens;
